@@ -127,8 +127,9 @@ class Ops2(Ops):
             if n <= self.opts.get('map_perm_max', 3):
                 orders = list(itertools.permutations(range(n)))
             else:
-                orders = [tuple(range(k, n)) + tuple(range(k)) for k in range(n)]
-                orders.append(tuple(reversed(range(n))))
+                # beyond 3 entries: insertion order, its reverse and one rotation (chosen by the seed)
+                r = 1 + (self.opts.get('seed', 0) % (n - 1))
+                orders = [tuple(range(n)), tuple(reversed(range(n))), tuple(range(r, n)) + tuple(range(r))]
             k = self.choose(st, [True] * len(orders), maporder=True)
             st.maporder = True
             order = orders[k]
